@@ -177,7 +177,7 @@ theorem encode_effect (fs : FS) (tmp dst : Key) (e : Ent) (_hne : tmp ≠ dst) :
 /-- **C08 (snapshot).** Taking a snapshot: whatever prefix of the call sequence of `createDisk` was
     executed when the process died, the directory opens with the chain before the operation or with
     the chain after it (new head on top, the old head's inode under the snapshot's name). -/
-theorem c08_snapshot (fs : FS) (oldHead newHead snap oldParent : String) (i0 newIno : Nat)
+theorem c08_snapshot_split (fs : FS) (oldHead newHead snap oldParent : String) (i0 newIno : Nat)
     (rest : List (String × Nat))
     (hrec : Recovers fs ((oldHead, i0) :: rest))
     (hpar : get fs (.dmeta oldHead) = some (.disk oldParent))
@@ -187,9 +187,9 @@ theorem c08_snapshot (fs : FS) (oldHead newHead snap oldParent : String) (i0 new
     (hf1 : ∀ x ∈ rest, x.1 ≠ newHead ∧ x.1 ≠ snap) (hf2 : ∀ x ∈ rest, x.1 ≠ oldHead)
     (ha1 : get fs (.img newHead) = none) (ha3 : get fs (.img snap) = none)
     (n : Nat) :
-    Recovers (run fs ((snapshotProg oldHead newHead snap oldParent newIno).take n)) ((oldHead, i0) :: rest) ∨
-    Recovers (run fs ((snapshotProg oldHead newHead snap oldParent newIno).take n))
-      ((newHead, newIno) :: (snap, i0) :: rest) := by
+    (n ≤ 17 → Recovers (run fs ((snapshotProg oldHead newHead snap oldParent newIno).take n)) ((oldHead, i0) :: rest)) ∧
+    (17 < n → Recovers (run fs ((snapshotProg oldHead newHead snap oldParent newIno).take n))
+      ((newHead, newIno) :: (snap, i0) :: rest)) := by
   -- the program is: everything up to the completed temp file of volume.meta, the rename, the clean-up
   let P1 : List Call :=
     [.fsyncDir, .create (.img newHead) (.data newIno), .create (.img newHead) (.data newIno), .truncate (.img newHead)] ++
@@ -224,13 +224,13 @@ theorem c08_snapshot (fs : FS) (oldHead newHead snap oldParent : String) (i0 new
     intro call hc k hk hu
     obtain ⟨o1, o2, o3, o4, o5, o6, o7⟩ := oldKeys k hu
     rcases hkeys k (mem_keysOf P1 call k hc hk) with h | h | h | h | h | h | h <;> contradiction
-  by_cases hn : n ≤ P1.length
+  refine ⟨fun hn0 => ?_, fun hn0 => ?_⟩
   · -- death before the commit: the old chain
-    left
+    have hn : n ≤ P1.length := hn0
     rw [List.take_append_of_le_length hn]
     exact recovers_untouched fs _ _ hrec (fun call hc => p1_untouched call (mem_take _ _ _ hc))
   · -- the rename of volume.meta has happened
-    right
+    have hn : ¬ n ≤ P1.length := by have : P1.length = 17 := rfl; omega
     obtain ⟨m, hm⟩ : ∃ m, n = P1.length + 1 + m := ⟨n - P1.length - 1, by omega⟩
     subst hm
     rw [take_past, run_append, run_cons]
@@ -363,6 +363,28 @@ theorem c08_snapshot (fs : FS) (oldHead newHead snap oldParent : String) (i0 new
           · exact hf2 x hx
       rcases hc' with rfl | rfl | rfl | rfl <;> rcases hk' with rfl | rfl <;> simp [touched, hx'] at hk
 
+/-- **C08 (snapshot).** Taking a snapshot: whatever prefix of the call sequence of `createDisk` was
+    executed when the process died, the directory opens with the chain before the operation or with
+    the chain after it (new head on top, the old head's inode under the snapshot's name); the switch
+    happens at the rename of `volume.meta` (the 18th call). -/
+theorem c08_snapshot (fs : FS) (oldHead newHead snap oldParent : String) (i0 newIno : Nat)
+    (rest : List (String × Nat))
+    (hrec : Recovers fs ((oldHead, i0) :: rest))
+    (hpar : get fs (.dmeta oldHead) = some (.disk oldParent))
+    (hvol : get fs .vol = some (.volume oldHead))
+    (hrest : oldParent = "" ∧ rest = [] ∨ oldParent ≠ "" ∧ IsChain fs oldParent rest)
+    (hn1 : newHead ≠ oldHead) (hn2 : snap ≠ oldHead) (hn3 : snap ≠ newHead) (hn4 : snap ≠ "")
+    (hf1 : ∀ x ∈ rest, x.1 ≠ newHead ∧ x.1 ≠ snap) (hf2 : ∀ x ∈ rest, x.1 ≠ oldHead)
+    (ha1 : get fs (.img newHead) = none) (ha3 : get fs (.img snap) = none)
+    (n : Nat) :
+    Recovers (run fs ((snapshotProg oldHead newHead snap oldParent newIno).take n)) ((oldHead, i0) :: rest) ∨
+    Recovers (run fs ((snapshotProg oldHead newHead snap oldParent newIno).take n))
+      ((newHead, newIno) :: (snap, i0) :: rest) := by
+  have h := c08_snapshot_split fs oldHead newHead snap oldParent i0 newIno rest hrec hpar hvol hrest hn1 hn2 hn3 hn4 hf1 hf2 ha1 ha3 n
+  by_cases hn : n ≤ 17
+  · exact Or.inl (h.1 hn)
+  · exact Or.inr (h.2 (by omega))
+
 /-! ### removal of a chain member -/
 
 theorem isChain_head (fs : FS) (h : String) (x : String × Nat) (c : List (String × Nat))
@@ -410,7 +432,7 @@ theorem isChain_replace (fs fs' : FS) (top : List (String × Nat)) : ∀ (h d : 
 /-- **C08 (removal).** Removing the chain member `name` (child `child`, parent `parent`): whatever
     prefix of the call sequence of `removeDiskNode` / `rmDisk` was executed, the directory opens with
     the chain before or with the chain without `name`; every other member keeps its inode. -/
-theorem c08_remove (fs : FS) (h name child parent grand : String) (ic i ip : Nat)
+theorem c08_remove_split (fs : FS) (h name child parent grand : String) (ic i ip : Nat)
     (top below : List (String × Nat))
     (hvol : get fs .vol = some (.volume h))
     (hold : IsChain fs h (top ++ (child, ic) :: (name, i) :: (parent, ip) :: below))
@@ -419,10 +441,10 @@ theorem c08_remove (fs : FS) (h name child parent grand : String) (ic i ip : Nat
     (hdt : ∀ x ∈ top, x.1 ≠ child ∧ x.1 ≠ name ∧ x.1 ≠ parent)
     (hdb : ∀ x ∈ below, x.1 ≠ child ∧ x.1 ≠ name ∧ x.1 ≠ parent)
     (n : Nat) :
-    Recovers (run fs ((removeProg name child parent grand).take n))
-      (top ++ (child, ic) :: (name, i) :: (parent, ip) :: below) ∨
-    Recovers (run fs ((removeProg name child parent grand).take n))
-      (top ++ (child, ic) :: (parent, ip) :: below) := by
+    (n ≤ 2 → Recovers (run fs ((removeProg name child parent grand).take n))
+      (top ++ (child, ic) :: (name, i) :: (parent, ip) :: below)) ∧
+    (2 < n → Recovers (run fs ((removeProg name child parent grand).take n))
+      (top ++ (child, ic) :: (parent, ip) :: below)) := by
   let P1 : List Call := [.create (.dmetaTmp child) .incomplete, .write (.dmetaTmp child) (.disk parent)]
   let Q1 : List Call := [.fsyncDir, .create (.dmetaTmp parent) .incomplete, .write (.dmetaTmp parent) (.disk grand)]
   let Q2 : List Call := [.fsyncDir, .unlink (.img name), .unlink (.dmeta name), .fsyncDir]
@@ -440,8 +462,8 @@ theorem c08_remove (fs : FS) (h name child parent grand : String) (ic i ip : Nat
   have hchild_img : get fs (.img child) = some (.data ic) := by
     cases hsub with
     | step _ _ _ _ h1 _ _ _ => exact h1
-  by_cases hn : n ≤ P1.length
-  · left
+  refine ⟨fun hn0 => ?_, fun hn0 => ?_⟩
+  · have hn : n ≤ P1.length := hn0
     rw [List.take_append_of_le_length hn]
     refine recovers_untouched fs _ _ ⟨h, hvol, hold⟩ ?_
     intro call hc k hk hu
@@ -451,7 +473,7 @@ theorem c08_remove (fs : FS) (h name child parent grand : String) (ic i ip : Nat
       rcases hc' with rfl | rfl <;> simpa [touched] using hk
     subst hk'
     rcases hu with h0 | ⟨x, _, h0 | h0⟩ <;> cases h0
-  · right
+  · have hn : ¬ n ≤ P1.length := by have : P1.length = 2 := rfl; omega
     obtain ⟨m, hm⟩ : ∃ m, n = P1.length + 1 + m := ⟨n - P1.length - 1, by omega⟩
     subst hm
     rw [take_past, run_append, run_cons]
@@ -557,11 +579,32 @@ theorem c08_remove (fs : FS) (h name child parent grand : String) (ic i ip : Nat
       · have hx' := newNames x hx
         rcases hc' with rfl | rfl | rfl | rfl <;> rcases hk' with rfl | rfl <;> simp [touched, hx'] at hk
 
+/-- **C08 (removal).** Removing the chain member `name` (child `child`, parent `parent`): whatever
+    prefix of the call sequence of `removeDiskNode` / `rmDisk` was executed, the directory opens with
+    the chain before or with the chain without `name`; every other member keeps its inode. -/
+theorem c08_remove (fs : FS) (h name child parent grand : String) (ic i ip : Nat)
+    (top below : List (String × Nat))
+    (hvol : get fs .vol = some (.volume h))
+    (hold : IsChain fs h (top ++ (child, ic) :: (name, i) :: (parent, ip) :: below))
+    (hgrand : get fs (.dmeta parent) = some (.disk grand))
+    (hd1 : child ≠ name) (hd2 : child ≠ parent) (hd3 : name ≠ parent) (hp : parent ≠ "")
+    (hdt : ∀ x ∈ top, x.1 ≠ child ∧ x.1 ≠ name ∧ x.1 ≠ parent)
+    (hdb : ∀ x ∈ below, x.1 ≠ child ∧ x.1 ≠ name ∧ x.1 ≠ parent)
+    (n : Nat) :
+    Recovers (run fs ((removeProg name child parent grand).take n))
+      (top ++ (child, ic) :: (name, i) :: (parent, ip) :: below) ∨
+    Recovers (run fs ((removeProg name child parent grand).take n))
+      (top ++ (child, ic) :: (parent, ip) :: below) := by
+  have hh := c08_remove_split fs h name child parent grand ic i ip top below hvol hold hgrand hd1 hd2 hd3 hp hdt hdb n
+  by_cases hn : n ≤ 2
+  · exact Or.inl (hh.1 hn)
+  · exact Or.inr (hh.2 (by omega))
+
 /-- **C08 (revert).** Reverting to the chain member `target`: whatever prefix of the call sequence of
     `revertDisk` was executed, the directory opens with the chain before, or with a new head directly
     on `target` (the members that were above `target` stay in the directory but are no longer part of
     the chain). -/
-theorem c08_revert (fs : FS) (oldHead newHead target : String) (i0 it newIno : Nat)
+theorem c08_revert_split (fs : FS) (oldHead newHead target : String) (i0 it newIno : Nat)
     (mid below : List (String × Nat))
     (hvol : get fs .vol = some (.volume oldHead))
     (hold : IsChain fs oldHead ((oldHead, i0) :: mid ++ (target, it) :: below))
@@ -569,10 +612,10 @@ theorem c08_revert (fs : FS) (oldHead newHead target : String) (i0 it newIno : N
     (hf : ∀ x ∈ mid ++ below, x.1 ≠ newHead ∧ x.1 ≠ oldHead)
     (ha1 : get fs (.img newHead) = none)
     (n : Nat) :
-    Recovers (run fs ((revertProg oldHead newHead target newIno).take n))
-      ((oldHead, i0) :: mid ++ (target, it) :: below) ∨
-    Recovers (run fs ((revertProg oldHead newHead target newIno).take n))
-      ((newHead, newIno) :: (target, it) :: below) := by
+    (n ≤ 9 → Recovers (run fs ((revertProg oldHead newHead target newIno).take n))
+      ((oldHead, i0) :: mid ++ (target, it) :: below)) ∧
+    (9 < n → Recovers (run fs ((revertProg oldHead newHead target newIno).take n))
+      ((newHead, newIno) :: (target, it) :: below)) := by
   let A : List Call := [.create (.img newHead) (.data newIno), .create (.img newHead) (.data newIno), .truncate (.img newHead)]
   let B := encode (.dmetaTmp newHead) (.dmeta newHead) (.disk target)
   let E : List Call := [.create .volTmp .incomplete, .write .volTmp (.volume newHead)]
@@ -611,11 +654,11 @@ theorem c08_revert (fs : FS) (oldHead newHead target : String) (i0 it newIno : N
     intro call hc k hk hu
     obtain ⟨o1, o2, o3, o4⟩ := oldKeys k hu
     rcases hkeys k (mem_keysOf P1 call k hc hk) with h | h | h | h <;> contradiction
-  by_cases hn : n ≤ P1.length
-  · left
+  refine ⟨fun hn0 => ?_, fun hn0 => ?_⟩
+  · have hn : n ≤ P1.length := hn0
     rw [List.take_append_of_le_length hn]
     exact recovers_untouched fs _ _ ⟨oldHead, hvol, hold⟩ (fun call hc => p1_untouched call (mem_take _ _ _ hc))
-  · right
+  · have hn : ¬ n ≤ P1.length := by have : P1.length = 9 := rfl; omega
     obtain ⟨m, hm⟩ : ∃ m, n = P1.length + 1 + m := ⟨n - P1.length - 1, by omega⟩
     subst hm
     rw [take_past, run_append, run_cons]
@@ -732,6 +775,26 @@ theorem c08_revert (fs : FS) (oldHead newHead target : String) (i0 it newIno : N
       simp only [Q2, List.mem_cons, List.mem_nil_iff, or_false] at hc'
       subst hc'
       simp [touched] at hk
+
+/-- **C08 (revert).** Reverting to the chain member `target`: whatever prefix of the call sequence of
+    `revertDisk` was executed, the directory opens with the chain before, or with a new head directly
+    on `target`. -/
+theorem c08_revert (fs : FS) (oldHead newHead target : String) (i0 it newIno : Nat)
+    (mid below : List (String × Nat))
+    (hvol : get fs .vol = some (.volume oldHead))
+    (hold : IsChain fs oldHead ((oldHead, i0) :: mid ++ (target, it) :: below))
+    (hn1 : newHead ≠ oldHead) (ht : target ≠ "") (ht1 : target ≠ oldHead) (ht2 : target ≠ newHead)
+    (hf : ∀ x ∈ mid ++ below, x.1 ≠ newHead ∧ x.1 ≠ oldHead)
+    (ha1 : get fs (.img newHead) = none)
+    (n : Nat) :
+    Recovers (run fs ((revertProg oldHead newHead target newIno).take n))
+      ((oldHead, i0) :: mid ++ (target, it) :: below) ∨
+    Recovers (run fs ((revertProg oldHead newHead target newIno).take n))
+      ((newHead, newIno) :: (target, it) :: below) := by
+  have hh := c08_revert_split fs oldHead newHead target i0 it newIno mid below hvol hold hn1 ht ht1 ht2 hf ha1 n
+  by_cases hn : n ≤ 9
+  · exact Or.inl (hh.1 hn)
+  · exact Or.inr (hh.2 (by omega))
 
 /-- **C08 (single metadata update).** Every other metadata change (size, checkpoint, rebuilding flag,
     clone status, a disk's attributes) is one `encodeToFile`: whatever prefix of it was executed, the
